@@ -32,6 +32,30 @@ MUTANTS = [
      'x for x in self._events if x.asset_id == asset_id]\n\n        for event in events_to_cancel'),
     ('c07-unpause-all', 'C07', M + 'simulation.py', 'events_to_unpause = [x for x in self._paused_events if x.asset_id == asset_id]',
      'events_to_unpause = [x for x in self._paused_events]'),
+    ('c02-accept-while-busy', 'C02', FF + 'part_processor.py', "        if not super()._can_accept_part(part):\n            return False\n        # Reserving",
+     "        if not PartFlowController._can_accept_part(self, part):\n            return False\n        # Reserving"),
+    ('c02-source-budget', 'C02', FF + 'source.py', 'if self.remaining_parts < 1 or self._output == None:', 'if self.remaining_parts < 0 or self._output == None:'),
+    ('c02-clear-before-answer', 'C02', FF + 'part_handler.py', "            if dwn.give_part(self._output):\n                self._output = None\n                self.notify_upstream_of_available_space()\n                return",
+     "            out, self._output = self._output, None\n            if dwn.give_part(out):\n                self.notify_upstream_of_available_space()\n                return\n            self._output = None"),
+    ('c03-no-check-after-release', 'C03', M + 'resource_manager.py', "            self._record_resource_amount_update(resource_name)\n        self._schedule_check_pending_requesters()\n\n    def _can_fulfill_request",
+     "            self._record_resource_amount_update(resource_name)\n\n    def _can_fulfill_request"),
+    ('c03-buffer-no-rearm', 'C03', FF + 'buffer.py', "            else:\n                self._waiting_for_downstream_space = True\n", "            else:\n                pass\n"),
+    ('c03-notify-on-block', 'C03', FF + 'part_flow_controller.py', "        if not is_blocked:\n            self.notify_upstream_of_available_space()", "        if is_blocked:\n            self.notify_upstream_of_available_space()"),
+    ('c03-no-notify-after-restore', 'C03', FF + 'part_processor.py', "        elif self._part == None:\n            self.notify_upstream_of_available_space()", "        elif self._part == None:\n            pass"),
+    ('c03-source-no-resume', 'C03', FF + 'source.py', "        if was_empty:\n            self._schedule_pass_part_downstream()", "        if was_empty:\n            pass"),
+    ('c05-level-not-decremented', 'C05', FF + 'buffer.py', "                    self._level -= part_count\n", "                    pass\n"),
+    ('c05-capacity-off-by-one', 'C05', FF + 'buffer.py', "if self.level() + part_count > self._capacity:", "if self.level() + part_count > self._capacity + 1:"),
+    ('c05-lifo', 'C05', FF + 'buffer.py', "        self._buffer.append((self.env.now, self._part))", "        self._buffer.insert(0, (self.env.now, self._part))"),
+    ('c05-delay-ignored', 'C05', FF + 'buffer.py', "            if self._remaining_wait_time(self._buffer[0][0]) > min_time_change:\n                break", "            if False:\n                break"),
+    ('c06-unpause-sign', 'C06', M + 'simulation.py', 'event.time += self.now - event.paused_at', 'event.time += self.now + event.paused_at'),
+    ('c06-offset-not-reset', 'C06', FF + 'part_handler.py', "        self._next_cycle_time_offset = 0\n        if next_cycle_time <= 0:", "        if next_cycle_time <= 0:"),
+    ('c06-fail-keeps-timer', 'C06', FF + 'part_processor.py', "        if is_failure:\n            self._env.cancel_matching_events(asset_id = self.id)\n        else:", "        if False:\n            self._env.cancel_matching_events(asset_id = self.id)\n        else:"),
+    ('c13-uptime-plus', 'C13', FF + 'part_processor.py', "        self._uptime += self.env.now - self._last_restore", "        self._uptime += self.env.now + self._last_restore"),
+    ('c13-callbacks-reversed', 'C13', FF + 'part_processor.py', "        self._set_waiting_for_part(False)\n        for c in self._shutdown_callbacks:", "        self._set_waiting_for_part(False)\n        for c in reversed(self._shutdown_callbacks):"),
+    ('c13-restored-reversed', 'C13', FF + 'part_processor.py', "        for c in self._restored_callbacks:", "        for c in reversed(self._restored_callbacks):"),
+    ('c13-start-work-no-shutdown', 'C13', FF + 'part_processor.py', "    def start_work(self, tag):\n        self.shutdown()", "    def start_work(self, tag):\n        pass"),
+    ('c13-fail-drops-output', 'C13', FF + 'part_processor.py', "        lost_part = self._part\n        self._part = None\n", "        lost_part = self._part\n        self._part = None\n        self._output = None\n"),
+    ('c13-util-not-restarted', 'C13', FF + 'part_processor.py', "        if self._part != None:\n            self._last_use_start = self.env.now\n\n        for c in self._restored_callbacks", "        for c in self._restored_callbacks"),
     ('c09-neg-capacity', 'C09', M + 'resource_manager.py', 'if amount < 0 and max_available + amount < 0:', 'if amount < 0 and max_available + amount < -1:'),
     ('c09-skip-check-1', 'C09', M + 'resource_manager.py', 'if self._reserved_resources[resource_name] < amount:',
      'if amount != 1 and self._reserved_resources[resource_name] < amount:'),
